@@ -65,14 +65,55 @@ func Seqs(pts []exact.P, minLen, maxLen, first int, fn func(seq []exact.P)) int6
 	return nodes
 }
 
+// SeqsFrom enumerates every sequence extending prefix (prefix itself
+// included when long enough) up to maxLen. Used for sharding on level-2
+// subtrees. Returns tree nodes visited.
+func SeqsFrom(pts []exact.P, prefix []exact.P, minLen, maxLen int, fn func(seq []exact.P)) int64 {
+	var nodes int64
+	buf := make([]exact.P, len(prefix), maxLen+1)
+	copy(buf, prefix)
+	var rec func()
+	rec = func() {
+		nodes++
+		if len(buf) >= minLen {
+			fn(buf)
+		}
+		if len(buf) >= maxLen {
+			return
+		}
+		for _, p := range pts {
+			buf = append(buf, p)
+			rec()
+			buf = buf[:len(buf)-1]
+		}
+	}
+	rec()
+	return nodes
+}
+
+// Shards2 returns the prefixes that partition the sequence tree at level 2:
+// the empty sequence and all length-1 sequences are returned as "short"
+// (to be visited directly), then every length-2 prefix.
+func Shards2(pts []exact.P) (short [][]exact.P, prefixes [][]exact.P) {
+	short = append(short, []exact.P{})
+	for _, a := range pts {
+		short = append(short, []exact.P{a})
+		for _, b := range pts {
+			prefixes = append(prefixes, []exact.P{a, b})
+		}
+	}
+	return
+}
+
 // SimpleRings returns every simple ring with 3..maxV vertices over pts, as
 // open vertex sequences (all rotations and both directions occur as distinct
 // sequences, because nothing is canonicalised).
 func SimpleRings(pts []exact.P, maxV int) [][]exact.P {
 	var out [][]exact.P
 	Seqs(pts, 3, maxV, -1, func(seq []exact.P) {
-		// cheap pre-filter: distinct consecutive
-		if !exact.Simple(seq) {
+		// a sequence that already ends with its first vertex is the closed
+		// spelling of a shorter ring; rings are enumerated unclosed
+		if seq[len(seq)-1] == seq[0] || !exact.Simple(seq) {
 			return
 		}
 		out = append(out, append([]exact.P(nil), seq...))
